@@ -17,7 +17,7 @@ from mc.harness.client import run as drive
 from mc.refmodel.server import typed_eq
 
 UNK, CONF, NULL = 'unk', 'conf', 'null'
-JUNK = [1, {}, [], {'jsonrpc': '2.0', 'id': 1}, {'jsonrpc': '1.0', 'id': 1, 'result': 1},
+JUNK = [1, {}, [], {'jsonrpc': '2.0', 'id': True, 'result': 1}, {'jsonrpc': '2.0', 'id': False, 'error': {'code': 1, 'message': 'm'}}, {'jsonrpc': '2.0', 'id': 1}, {'jsonrpc': '1.0', 'id': 1, 'result': 1},
         {'jsonrpc': '2.0', 'id': 1, 'result': 1, 'error': {'code': 1, 'message': 'm'}},
         {'jsonrpc': '2.0', 'id': 1, 'error': {'code': '1', 'message': 'm'}}, {'jsonrpc': '2.0', 'id': [1], 'result': 1}]
 BODIES = ['1', '"x"', 'null', '{}', 'true', '{"jsonrpc":"2.0","id":1,"result":1}', '{"jsonrpc":"2.0","id":1}',
